@@ -2,7 +2,11 @@
 Whole FPy programs evaluated under a stochastic context (C17, program route).
 Each lists how many rounded operations one evaluation performs for positive
 arguments (every intermediate is then finite and non-zero, so each rounding
-consumes exactly one draw).
+consumes exactly one draw).  Every program is monotone in each of its roundings
+(rounding any intermediate away from zero moves the final result away from
+zero), which is what lets the check bound the result by the all-RTZ and the
+all-RAZ evaluation: no subtraction of a rounded quantity, no sign change after
+the first rounding.
 """
 import fpy2 as fp
 
@@ -56,7 +60,7 @@ def aug(x: fp.Real, y: fp.Real) -> fp.Real:
     acc = x
     acc += y
     acc *= y
-    acc -= x / 16
+    acc += x / 16
     acc /= y
     return acc
 
@@ -95,6 +99,15 @@ def callee(x: fp.Real, y: fp.Real) -> fp.Real:
     return a / y
 
 
+@fp.fpy
+def consts(x: fp.Real, y: fp.Real) -> fp.Real:
+    # a library constant is rounded under the context like the result of any operation: one draw each time
+    a = fp.const_pi() * x
+    for _i in range(2):
+        a = a + fp.const_e()
+    return a / y
+
+
 def make_withblk(C):
     @fp.fpy
     def withblk(x: fp.Real, y: fp.Real) -> fp.Real:
@@ -111,14 +124,14 @@ def make_withneg(C):
         with C:
             a = x / y
             with C:
-                b = -a + 0.1
+                b = -a - 0.1      # (stays negative: every rounding moves the result the same way)
         return b
     return withneg
 
 
 # name -> number of rounded operations per evaluation
 PROGS = {'chain3': 3, 'loop4': 8, 'root2': 4, 'listy': 6, 'lits': 9, 'aug': 5, 'negabs': 4, 'fused': 2, 'casts': 4,
-         'callee': 3, 'withblk': 3, 'withneg': 3}
+         'callee': 3, 'withblk': 3, 'withneg': 3, 'consts': 7}
 # programs made per context by a factory (the stochastic context is the `with` context of the program itself;
 # the caller's context is a deterministic one): name -> maker
 MAKERS = {'withblk': make_withblk, 'withneg': make_withneg}
